@@ -106,6 +106,9 @@ type frame struct {
 	// argExprs: the call-site arguments of a nested coroutine call, evaluated
 	// again when the coroutine is resumed (see suspend).
 	argExprs []*a.Node
+	// ltypes: the declared types of the locals (pointer-holding ones do not
+	// survive a suspension).
+	ltypes map[t.ID]*a.TypeExpr
 }
 
 type interp struct {
@@ -747,6 +750,10 @@ func (in *interp) stmt(fn *a.Func, o *a.Node) {
 	case a.KVar:
 		v := o.AsVar()
 		in.cur().locals[v.Name()] = in.zero(v.XType())
+		if in.cur().ltypes == nil {
+			in.cur().ltypes = map[t.ID]*a.TypeExpr{}
+		}
+		in.cur().ltypes[v.Name()] = v.XType()
 	case a.KAssert:
 		// Evaluated by the C02 observer; nothing to execute.
 	case a.KAssign:
